@@ -1,6 +1,9 @@
 """C09 — every dialect compiles the core language into well-scoped SQL.
 
-(T) lean/LogicaModel/Props/C09.lean (templates regenerated from the live dialect classes; balance / arity theorems)
+(T) lean/LogicaModel/Props/C09.lean over lean/LogicaModel/Generated/Templates.lean, regenerated from the live
+    dialect tables by tools/gen_templates.py on every run (translator tie): every template is well-formed,
+    formatting balanced arguments into a well-formed template gives balanced text or the arity diagnostic
+(K) QL.Function / QL.Infix on every live template x argument texts vs Format.function / Format.infixOp
 (S) generated typed programs x the eight engines: compilation must succeed or fail with one of the four
     diagnostics (never an internal error), and the emitted SQL must pass an independent static checker
     (brackets and string literals balance with comment-aware lexing, every alias.column refers to an alias
@@ -47,7 +50,108 @@ def job(j):
   return out
 
 
+def translate(ck):
+  import importlib.util
+  import os
+  spec = importlib.util.spec_from_file_location('gen_templates', os.path.join(core.VERIF, 'tools', 'gen_templates.py'))
+  mod = importlib.util.module_from_spec(spec)
+  spec.loader.exec_module(mod)
+  mod.main()
+  ck.notes.append('Generated/Templates.lean regenerated from the dialect tables of /repo')
+
+
+ARG_TEXTS = ['t_0.col1', '(a + 1)', "'x(y'", 'JSON_ARRAY(1, 2)', '"q]"', 'x', "CAST(v AS STRING)", "'it''s'", '[1, 2][OFFSET(0)]', '']
+
+
+def run_templates(ck):
+  """(K) the real formatting functions against the Lean model on every live template."""
+  reqs, meta = [], []
+  seen = set()
+  for eng in R.ENGINES:
+    ql = R.ql_for(eng)
+    for kind, table in (('fmt_function', ql.built_in_functions), ('fmt_infix', ql.built_in_infix_operators)):
+      for name, t in sorted(table.items()):
+        if t is None or (kind, t) in seen:
+          continue
+        seen.add((kind, t))
+        for n in ([0, 1, 2, 3] if kind == 'fmt_function' else [2]):
+          for _ in range(2):
+            args = [ck.rng.choice(ARG_TEXTS) for _ in range(n)]
+            try:
+              if kind == 'fmt_function':
+                real = ql.Function(t, dict(enumerate(args)))
+              else:
+                real = '(' + ql.Infix(t, {'left': args[0], 'right': args[1]}) + ')'
+            except (IndexError, TypeError, ValueError, KeyError):
+              real = None
+            reqs.append({'op': kind, 'template': t, 'args': args})
+            meta.append((eng, name, t, args, real))
+  for (eng, name, t, args, real), resp in zip(meta, core.Driver().ask_many(reqs)):
+    ck.corr('format-vs-model')
+    ck.case(['template', t, args], real is not None, ['template:' + ('pct' if '%s' in t else 'brace'), 'template-args:%d' % len(args)])
+    inp = {'engine': eng, 'function': name, 'template': t, 'args': args}
+    if 'error' in resp or resp['out'] != real:
+      ck.disagreement('format-vs-model', inp, real, resp)
+    if not resp.get('template_ok'):
+      ck.disagreement('live-template-check', inp, 'template of the live table', 'fails functionTemplateOK / infixTemplateOK')
+    if real is not None:
+      errs = sqlscope.check('SELECT ' + real, R.ENGINE_DIALECT_NAME[eng])
+      errs = [e for e in errs if e.startswith('lexical/balance') or (e.startswith('placeholder') and 'UNUSED' not in e)]
+      if errs and all(not sqlscope.check('SELECT ' + a, R.ENGINE_DIALECT_NAME[eng]) for a in args if a):
+        ck.violation('c09:template-unbalanced:%s' % name, 'engine %s: built-in %s renders balanced arguments %s as %r: %s' % (eng, name, args, real, errs[0]), inp)
+
+
+SWEEP_ARGS = {'num': '1', 'str': '"a"', 'list': '[1, 2]', 'strlist': '["a", "b"]', 'bool': 'true'}
+
+
+def sweep_job(j):
+  eng, name, args = j
+  text = '@Engine("%s");\nQ(x) :- x == %s(%s);\n' % (eng, name, ', '.join(SWEEP_ARGS[a] for a in args))
+  c = R.compile_pred(text, 'Q')
+  d = {'text': text, 'kind': c.kind, 'exc': getattr(c, 'exc_type', ''), 'msg': getattr(c, 'message', '')[:300]}
+  if c.kind == 'ok':
+    errs = []
+    for st in [c.preamble] + c.defines + [c.main]:
+      errs += sqlscope.check(st, R.ENGINE_DIALECT_NAME[eng])
+    d['errors'] = errs[:3]
+    d['sql'] = c.main[:1500]
+  return d
+
+
+def run_builtin_sweep(ck):
+  """(S) every non-bulk built-in function of every dialect called with 1..3 literal arguments of several types:
+  compiles or is diagnosed, never an internal error; what compiles passes the static checker."""
+  jobs = []
+  for eng in R.ENGINES:
+    ql = R.ql_for(eng)
+    for name, t in sorted(ql.built_in_functions.items()):
+      if not name[:1].isupper() or not name.isalnum():
+        continue
+      if name in ql.BULK_FUNCTIONS and t == ql.BULK_FUNCTIONS[name]:
+        continue
+      if name in ('FlagValue', 'Cast', 'TryCast', 'SqlExpr', 'TypeRepr', 'If', 'Aggr', 'Container', 'Constraint', 'ValueOfUnnested'):
+        continue     # special forms with their own syntax
+      for n in (1, 2, 3):
+        for _ in range(2):
+          jobs.append((eng, name, tuple(ck.rng.choice(sorted(SWEEP_ARGS)) for _ in range(n))))
+  jobs = sorted(set(jobs))
+  ck.rng.shuffle(jobs)
+  jobs = jobs[:ck.budget(500, 100000)]
+  for (eng, name, args), d in zip(jobs, core.pmap(sweep_job, jobs)):
+    ck.case(['sweep', eng, name, args], d['kind'] == 'ok', ['sweep:' + eng, 'sweep-outcome:' + d['kind']])
+    rp = {'engine': eng, 'program': d['text'], 'message': d['msg']}
+    if d['kind'] == 'internal':
+      ck.violation('c09:builtin-internal:%s:%s' % (d['exc'], name), 'engine %s: %s(%s) fails with internal error %s: %s' % (
+          eng, name, ', '.join(args), d['exc'], d['msg'][:120]), rp)
+    elif d['kind'] == 'ok' and d['errors']:
+      rp['sql'] = d['sql']
+      ck.violation('c09:builtin-malformed:%s:%s' % (eng, name), 'engine %s: %s(%s) compiles to SQL that is not well-formed: %s' % (
+          eng, name, ', '.join(args), d['errors'][:2]), rp)
+
+
 def run(ck):
+  run_templates(ck)
+  run_builtin_sweep(ck)
   n = ck.budget(16, 300)
   # records / lists of the generator are untyped literals: dialects that need element types reject them with a
   # diagnostic, which is an allowed outcome; keep a typed-friendly mask for half of the programs
@@ -84,6 +188,8 @@ def run(ck):
           rp['sql'] = d['sql']
           ck.violation('c09:malformed-sql:%s:%s' % (eng, d['errors'][0].split(':')[0]),
                        'engine %s, predicate %s: emitted SQL is not well-formed: %s' % (eng, p, d['errors'][:2]), rp)
+        elif eng == 'sqlite' and (d.get('exec') == 'too_big' or 'parser stack overflow' in d.get('exec_msg', '') or 'at most 64 tables' in d.get('exec_msg', '')):
+          ck.features['sqlite-capacity-limit-skipped'] += 1      # engine capacity, not a property of the text
         elif eng == 'sqlite' and d.get('exec') != 'ok':
           rp['sql'] = d['sql']
           ck.violation('c09:checker-accepts-but-sqlite-rejects', 'SQLite rejects SQL that the static checker accepts: %s' % d.get('exec_msg'), rp)
